@@ -67,7 +67,15 @@ type Contracts struct {
 	AxOrder  []string
 	Immutable map[string]bool // "db.tableLeaf.cells"
 	Funs     map[string]*SpecFun
+	Macros   map[string]*Macro
 	Files    []string
+}
+
+type Macro struct {
+	Name   string
+	Params []string
+	Text   string
+	Expr   Expr
 }
 
 type SpecFun struct {
@@ -76,7 +84,7 @@ type SpecFun struct {
 	Ret  string
 }
 
-var headerRe = regexp.MustCompile(`^(func|iface|functype|extern|ghost|smt|axioms|lemma|immutable|closure)\b\s*(.*)$`)
+var headerRe = regexp.MustCompile(`^(func|iface|functype|extern|ghost|smt|axioms|lemma|immutable|closure|macro)\b\s*(.*)$`)
 
 func LoadContracts(repo string) (*Contracts, error) {
 	cs := &Contracts{ByName: map[string]*Contract{}, Axioms: map[string]*SMTBlock{}, Immutable: map[string]bool{}, Funs: map[string]*SpecFun{}}
@@ -104,7 +112,8 @@ func (cs *Contracts) loadFile(path string) error {
 	var cur *Contract
 	var curSMT *SMTBlock
 	var lastClause *Clause
-	flush := func() { cur = nil; curSMT = nil; lastClause = nil }
+	var curMacro *Macro
+	flush := func() { cur = nil; curSMT = nil; lastClause = nil; curMacro = nil }
 	for ln, raw := range strings.Split(string(data), "\n") {
 		line := strings.TrimRight(raw, " \t\r")
 		if !strings.HasPrefix(strings.TrimLeft(line, " \t"), "//@") {
@@ -143,6 +152,25 @@ func (cs *Contracts) loadFile(path string) error {
 				}
 				cs.Axioms[rest] = curSMT
 				cs.AxOrder = append(cs.AxOrder, rest)
+			case "macro":
+				// macro NAME(p1, p2) = expr
+				eq := strings.Index(rest, "=")
+				lp := strings.Index(rest, "(")
+				rp := strings.Index(rest, ")")
+				if eq < 0 || lp < 0 || rp < lp || rp > eq {
+					return fmt.Errorf("%s: macro NAME(params) = expr", where)
+				}
+				m := &Macro{Name: strings.TrimSpace(rest[:lp]), Text: strings.TrimSpace(rest[eq+1:])}
+				for _, p := range strings.Split(rest[lp+1:rp], ",") {
+					if p = strings.TrimSpace(p); p != "" {
+						m.Params = append(m.Params, p)
+					}
+				}
+				if cs.Macros == nil {
+					cs.Macros = map[string]*Macro{}
+				}
+				cs.Macros[m.Name] = m
+				curMacro = m
 			case "immutable":
 				for _, f := range strings.Fields(rest) {
 					cs.Immutable[f] = true
@@ -175,6 +203,10 @@ func (cs *Contracts) loadFile(path string) error {
 				cs.Order = append(cs.Order, c)
 				cur = c
 			}
+			continue
+		}
+		if curMacro != nil && strings.HasPrefix(tb, "+") {
+			curMacro.Text += " " + strings.TrimSpace(tb[1:])
 			continue
 		}
 		if cur == nil {
@@ -296,6 +328,13 @@ func (cs *Contracts) ParseAll() error {
 	}
 	for _, n := range cs.AxOrder {
 		cs.scanFuns(cs.Axioms[n].Text)
+	}
+	for _, m := range cs.Macros {
+		e, err := ParseExpr(m.Text)
+		if err != nil {
+			return fmt.Errorf("macro %s: %v", m.Name, err)
+		}
+		m.Expr = e
 	}
 	for _, c := range cs.Order {
 		var all []*Clause
